@@ -21,6 +21,10 @@ package mcp
 //@      && supportedProtocolVersions[1] == protocolVersion20251125 && supportedProtocolVersions[2] == protocolVersion20250618
 //@      && supportedProtocolVersions[3] == protocolVersion20250326 && supportedProtocolVersions[4] == protocolVersion20241105
 //@ global-invariant forall j int :: {absElem(supportedProtocolVersions, off(supportedProtocolVersions) + j)} 0 <= j && j < len(supportedProtocolVersions) ==> sdkSupports(supportedProtocolVersions[j])
+// sdkListed(v): v is an element of that list (an atom the solvers can carry through quantified loop invariants; it
+// implies sdkSupports(v), the five-way disjunction, by the axiom below - which only restates the package invariant).
+//@ fun sdkListed(v string) bool
+//@ axiom forall v string :: {sdkListed(v)} sdkListed(v) <==> sdkSupports(v)
 
 // initialize path: the result is always an SDK-supported pre-2026 version, and the client's own when that is one.
 //@ func negotiatedVersion [C07]
@@ -68,7 +72,7 @@ package mcp
 //@   nopanic
 //@   track SupportsProtocolVersion as ask
 //@   modifies allElems("string")
-//@   ensures @only-versions-of-the-sdk forall j int :: {absElem(result, off(result) + j)} 0 <= j && j < len(result) ==> sdkSupports(result[j])
+//@   ensures @only-versions-of-the-sdk forall j int :: {absElem(result, off(result) + j)} 0 <= j && j < len(result) ==> sdkListed(result[j]) && sdkSupports(result[j])
 //@   ensures @every-version-is-asked-about-once calls(ask) == 0 || calls(ask) == 5
 //@   ensures @all-versions-without-an-opinion calls(ask) == 0 ==> len(result) == 5 && (forall j int :: {absElem(result, off(result) + j)} 0 <= j && j < 5 ==> result[j] == supportedProtocolVersions[j])
 //@   ensures @only-served-versions forall j int :: {absElem(result, off(result) + j)} 0 <= j && j < len(result) && calls(ask) == 5 ==> transportServes(local(pvs), result[j])
@@ -77,7 +81,7 @@ package mcp
 //@   loop 1: invariant @only-served-versions forall j int :: {absElem(local(out), off(local(out)) + j)} 0 <= j && j < len(local(out)) ==> transportServes(local(pvs), local(out)[j])
 //@   loop 1: invariant @no-served-version-is-dropped len(local(out)) == ($idx > 0 && transportServes(local(pvs), protocolVersion20260728) ? 1 : 0) + ($idx > 1 && transportServes(local(pvs), protocolVersion20251125) ? 1 : 0)
 //@        + ($idx > 2 && transportServes(local(pvs), protocolVersion20250618) ? 1 : 0) + ($idx > 3 && transportServes(local(pvs), protocolVersion20250326) ? 1 : 0) + ($idx > 4 && transportServes(local(pvs), protocolVersion20241105) ? 1 : 0)
-//@   loop 1: invariant @only-versions-of-the-sdk calls(ask) == $idx && len(local(out)) <= $idx && (forall j int :: {absElem(local(out), off(local(out)) + j)} 0 <= j && j < len(local(out)) ==> sdkSupports(local(out)[j]))
+//@   loop 1: invariant @only-versions-of-the-sdk calls(ask) == $idx && len(local(out)) <= $idx && (forall j int :: {absElem(local(out), off(local(out)) + j)} 0 <= j && j < len(local(out)) ==> sdkListed(local(out)[j]))
 // The package initializer establishes the package invariants (checked at the assignment) and the engine's
 // frame check shows the variables named in them are never assigned again, mutated or aliased.
 //@ func init [C07, C20, C01, C04]
